@@ -11,6 +11,7 @@ pub mod selftest;
 pub mod c01;
 pub mod c02;
 pub mod c03;
+pub mod c04;
 pub mod c06;
 pub mod c07;
 pub mod c08;
@@ -160,6 +161,7 @@ pub fn sweep<C>(
     body: &dyn Fn(&C) -> Result<(), String>,
     on: &mut dyn FnMut(usize, &C, &Outcome),
 ) {
+    let timeout_s = std::env::var("VC_TIMEOUT").ok().and_then(|s| s.parse().ok()).unwrap_or(timeout_s);
     let mut pool: Pool<usize> = Pool::new(crate::exec::default_workers(), timeout_s);
     let mut next = 0;
     loop {
@@ -242,6 +244,7 @@ pub fn run(id: &str, tier: Tier, rest: &[String]) -> i32 {
         "C01" => c01::run(tier, part),
         "C02" => c02::run(tier, part),
         "C03" => c03::run(tier, part),
+        "C04" => c04::run(tier, part),
         "C06" => c06::run(tier, part),
         "C07" => c07::run(tier, part),
         "C08" => c08::run(tier, part),
@@ -278,6 +281,7 @@ pub fn replay(file: &str) -> i32 {
         "C01" => c01::replay(&doc["replay"]),
         "C02" => c02::replay(tier, &doc["replay"]),
         "C03" => c03::replay(tier, &doc["replay"]),
+        "C04" => c04::replay(&doc["replay"]),
         "C06" => c06::replay(tier, &doc["replay"]),
         "C07" => c07::replay(tier, &doc["replay"]),
         "C17" => c17::replay(tier, &doc["replay"]),
